@@ -126,6 +126,8 @@ func c05(p *P) {
 	r.Rule("C05.R6", "history independence: cache keys, namespaces, read-only lookup, insert-after-guards, progress not read under validation", 12)
 	r.Rule("C05.R7", "relevance table of validateByProgress = spec; never Invalid; runs before the cache in every entry point", 5)
 	r.Rule("C05.R8", "validation cache structures: map accesses under their mutex; key binds namespace and value", 6)
+	r.Rule("C05.R9", "committee cache: only successful non-nil lookups remembered, under the requested instance; eviction only below the bound", 6)
+	p.include(c08, map[string]string{"C08.R1": "C05.R10", "C08.R4": "C05.R10b"}, map[string]string{"C05.R10": "strong-quorum threshold exact (justification quorum)", "C05.R10b": "sender's scaled power computed exactly"})
 
 	vm := p.fn("C05.R1", "gpbft.cachingValidator.validateMessageWithVoteValueKey")
 	// the cache lookup: the validator's wrapper or the grouped set's Contains called directly
@@ -143,6 +145,10 @@ func c05(p *P) {
 			g("sender signature verifies", errFails("", "iface:Verifier.Verify", "")),
 		)
 		p.guardedAfter("C05.R1", vm, sinks, g("justification valid (when required)", errFails("", "gpbft.cachingValidator.validateJustification", "")))
+		// the insertion is the last step: once the id is cached no check may still run and no error may still be returned
+		// (a message cached before a later check fails would be accepted on its next presentation).
+		later := append(errReturns(vm), callSinks(vm, "validation step", "gpbft.cachingValidator.validateJustification", "iface:Verifier.Verify", "iface:Verifier.VerifyTicket", "gpbft.VerifyTicket", "gpbft.ECChain.Validate", "iface:CommitteeProvider.GetCommittee")...)
+		p.notAfter("C05.R1", vm, "cache insertion", adds, "check or rejecting return", later)
 		r.Check(len(adds) == 1, "C05.R1", "validateMessageWithVoteValueKey: exactly one cache insertion", p.c.Pos(vm.Pos()), "1", fmt.Sprintf("%d insertions", len(adds)))
 		// sender key/power come from the committee of the message's instance; signature over the right payload
 		for _, cs := range callsTo(vm, false, "iface:CommitteeProvider.GetCommittee") {
@@ -323,6 +329,7 @@ func c05(p *P) {
 			r.Check(ok, "C05.R4", "validateJustification: compares the justification's value key with the table's key", p.c.InstrPos(cs.Instr), a0+" vs "+a1, "compares "+a0+" with "+a1)
 		}
 		p.guarded("C05.R4", vj, append(okReturns(vj), adds...), g("aggregate signature valid", errFails("", "gpbft.cachingValidator.validateJustificationSignature", "")))
+		p.notAfter("C05.R4", vj, "cache insertion", adds, "check or rejecting return", append(errReturns(vj), callSinks(vj, "validation step", "gpbft.cachingValidator.validateJustificationSignature", "gpbft.ECChain.Validate", "gpbft.SupplementalData.Eq")...))
 
 		// ---------------- R6 (justification cache key binding)
 		gk := callsTo(vj, false, "gpbft.cachingValidator.getCacheKey")
@@ -673,6 +680,32 @@ func c05(p *P) {
 				r.Check(held, "C05.R8", fmt.Sprintf("%s: %s.%s accessed under mu", funcName(f), spec.typ, fnm), p.c.InstrPos(in), "lock held", "validation-cache state accessed without its mutex")
 				}
 			}
+		}
+	}
+	// ---------------- R9: committee cache — only successful, non-nil lookups are remembered
+	if gc := p.fn("C05.R9", "gpbft.cachedCommitteeProvider.GetCommittee"); gc != nil {
+		var ups []Sink
+		for _, mu := range mapUpdates(gc, ".committees") {
+			ups = append(ups, Sink{mu, "committee remembered"})
+			r.Check(canon(mu.Key) == "$2" && canon(mu.Value) == "iface:CommitteeProvider.GetCommittee($0.delegate, $1, $2)#0", "C05.R9", "cachedCommitteeProvider.GetCommittee: remembers the delegate's committee under the requested instance", p.c.InstrPos(mu), canon(mu.Key)+" ↦ "+canon(mu.Value), "cache entry "+canon(mu.Key)+" ↦ "+canon(mu.Value))
+			r.Check(heldAt(gc, mu, "&$0.mu", true), "C05.R9", "cachedCommitteeProvider.GetCommittee: cache written under mu", p.c.InstrPos(mu), "held", "committee cache written without its mutex")
+		}
+		if len(ups) == 0 {
+			r.Undecided("C05.R9", "cachedCommitteeProvider.GetCommittee: cache write", "no write to the committees map found")
+		} else {
+			gs := []VM{errFails("delegate lookup succeeded", "iface:CommitteeProvider.GetCommittee", ""), canonIs("committee non-nil", `^iface:CommitteeProvider\.GetCommittee\(\$0\.delegate, \$1, \$2\)#0$`, avNil)}
+			p.guarded("C05.R9", gc, ups, gs...)
+			p.guardedAfter("C05.R9", gc, okReturns(gc), gs...)
+		}
+	}
+	if ev := p.fn("C05.R9", "gpbft.cachedCommitteeProvider.EvictCommitteesBefore"); ev != nil {
+		dels := callSinksRe(ev, "committee evicted", `^delete\(\$0\.committees`)
+		if len(dels) == 0 {
+			r.Undecided("C05.R9", "EvictCommitteesBefore: delete", "no delete found")
+		} else {
+			p.guarded("C05.R9", ev, dels,
+				cmpRel("evicted instance not at the bound", `^next\(range\(\$0\.committees\)\)#1$`, `^\$1$`, RelEQ),
+				cmpRel("evicted instance not above the bound", `^next\(range\(\$0\.committees\)\)#1$`, `^\$1$`, RelGT))
 		}
 	}
 	if fn := p.fn("C05.R8", "internal/caching.Set.newKey"); fn != nil {
